@@ -90,7 +90,7 @@ class TCPCubic(CongestionControl):
     ) -> None:
         super().__init__()
         self.W_last_max: float = 0
-        self.epoch_start = 0
+        self.epoch_start = None  # no epoch is running
         self.origin_point = 0
         self.d_min: float = 0
         self.W_tcp = 0
@@ -109,7 +109,7 @@ class TCPCubic(CongestionControl):
     def cubic_reset(self):
         """Resetting the states in CUBIC"""
         self.W_last_max = 0
-        self.epoch_start = 0
+        self.epoch_start = None  # no epoch is running
         self.origin_point = 0
         self.d_min = 0
         self.W_tcp = 0
@@ -119,7 +119,7 @@ class TCPCubic(CongestionControl):
     def cubic_update(self, current_time):
         """Updating CUBIC parameters upon the arrival of a new ack."""
         self.ack_cnt += 1
-        if self.epoch_start <= 0:
+        if self.epoch_start is None:
             self.epoch_start = current_time
             if self.cwnd < self.W_last_max:
                 self.K = ((self.W_last_max - self.cwnd) / self.C) ** (1.0 / 3)
